@@ -214,7 +214,6 @@ def renderMap (m : List (Nat × Nat)) : String :=
 def stepLine (s : St) (line : String) : St × String :=
   match words line with
   | ["new"] => ({}, "ok")
-  | ["new", "hash"] => ({}, "ok")   -- HashMap-backed lane: same observable behaviour (take/drop sort the keys)
   | ["map"] => (s, renderMap s.content)
   | _ => match parseOp line with
     | some op =>
@@ -280,7 +279,6 @@ def consistent (p : Pending) (rep : List (Nat × Nat)) (keys : List Nat) : Bool 
 def Mon.step (m : Mon) (line : String) (out : String) : Mon × Option String :=
   match words line with
   | ["new"] => ({}, none)
-  | ["new", "hash"] => ({}, none)
   | ["map"] => (m, if out = renderMap m.cur then none else some "lane-map-differs-from-reference")
   | _ =>
     match parseOp line with
